@@ -311,7 +311,7 @@ fn minimise_sym(start: &str, ops: &[String], monitor: &str) -> (String, Vec<Stri
 }
 
 pub fn cmd_sym(tier: &str, seed: u64, runs_override: Option<u64>, workers: usize, out: &str, replay_dir: &str) -> i32 {
-    let runs = runs_override.unwrap_or(if tier == "thorough" { 1_200_000 } else { 50_000 });
+    let runs = runs_override.unwrap_or(if tier == "thorough" { 2_000_000 } else { 150_000 });
     let t0 = Instant::now();
     let wall_cap = if tier == "thorough" { 1500.0 } else { 150.0 };
     let next = AtomicU64::new(0);
